@@ -493,6 +493,9 @@ async fn run_point<B: Backend>(b: &B, prog: &Arc<Program>, seed: u64, target: &T
     PointResult { polls, completed, violations: viol, inconclusive }
 }
 
+static MASKED_BY_F1: std::sync::atomic::AtomicU64 = std::sync::atomic::AtomicU64::new(0);
+static PANIC_VIA_BP: std::sync::atomic::AtomicU64 = std::sync::atomic::AtomicU64::new(0);
+
 /// Executor panic case: node `victim` panics when it computes its current value.
 async fn run_panic<B: Backend>(b: &B, prog0: &Arc<Program>, seed: u64, victim: NodeId) -> (Vec<(String, Json)>, bool) {
     let mut viol: Vec<(String, Json)> = Vec::new();
@@ -560,7 +563,25 @@ async fn run_panic<B: Backend>(b: &B, prog0: &Arc<Program>, seed: u64, victim: N
                 clean.poison = None;
                 let (exp, _) = Oracle::new(Arc::new(clean)).expect_with(&or, &[*n]);
                 if exp.contains_key(&victim) {
-                    viol.push(("panic-swallowed".into(), Json::obj().set("node", format!("{n:?}")).set("returned", v)));
+                    // ... or if the victim's staleness is hidden behind an unrepaired firewall and
+                    // the query reads above it at executor level (known finding C01-F1): on a
+                    // fresh state the user repairs the firewalls first; the panic must then reach
+                    // either that repair or the query
+                    let Built { engine: e2, .. } = build(b, &prog, seed).await;
+                    let t2 = e2.clone().tracked().await;
+                    let pre = bounded(AssertUnwindSafe(prerepair_tfc(&t2, &crate::eng::topo_order(prog_ref, &all))).catch_unwind(), 20).await;
+                    let reaches = match pre {
+                        Ok(Err(_)) => true,
+                        Ok(Ok(())) => matches!(bounded(AssertUnwindSafe(query_node(&t2, *n)).catch_unwind(), 20).await, Ok(Err(_))),
+                        Err(_) => false,
+                    };
+                    drop(t2);
+                    let _ = bounded(shutdown(e2), 20).await;
+                    if reaches {
+                        masked_by_f1 += 1;
+                    } else {
+                        viol.push(("panic-swallowed".into(), Json::obj().set("node", format!("{n:?}")).set("returned", v)));
+                    }
                 }
             }
             Err(Wait::Deadlock) => {
@@ -656,7 +677,8 @@ async fn run_panic<B: Backend>(b: &B, prog0: &Arc<Program>, seed: u64, victim: N
             viol.push(("panic-at-shutdown".into(), Json::obj().set("panics", sup::panics_since(mark2).join(" | "))));
         }
     }
-    let _ = (masked_by_f1, panic_via_backward_projection);
+    MASKED_BY_F1.fetch_add(masked_by_f1, Ordering::Relaxed);
+    PANIC_VIA_BP.fetch_add(panic_via_backward_projection, Ordering::Relaxed);
     (viol, reached)
 }
 
@@ -775,6 +797,14 @@ pub fn worker(ctx: &WorkerCtx) -> Report {
                 // (that repair yields to the scheduler and would let a detached remainder of the
                 // operation finish first). Wrong values that the same point shows after
                 // settling as well are the known finding C01-F1, not an effect of the drop.
+                // (not for query targets: the detached remainder of a cancelled query keeps
+                // publishing results, so "asked at once" and "asked after settling" start from
+                // different engine states and the known finding C01-F1 shows differently in
+                // the two - the comparison is only sound when the remainder changes nothing
+                // but the lock / commit state, i.e. for session operations)
+                if matches!(target, Target::Query(_)) {
+                    continue;
+                }
                 let mut now = run_raw(k, false);
                 if !now.violations.is_empty() {
                     let later = run_raw(k, true);
@@ -857,6 +887,8 @@ pub fn worker(ctx: &WorkerCtx) -> Report {
         rt.shutdown_timeout(Duration::from_secs(2));
     }
     rep.count("hook_yields", hooks::yields());
+    rep.count("panic_queries_that_returned_a_value_because_of_C01-F1", MASKED_BY_F1.load(Ordering::Relaxed));
+    rep.count("injected_panic_reached_a_non_dependant_through_backward_projection", PANIC_VIA_BP.load(Ordering::Relaxed));
     for (k, v) in hooks::hits() {
         if k.starts_with("pre") {
             rep.count(&format!("hook:{k}"), v);
